@@ -35,14 +35,50 @@ theorem evalList_zeros (env : Env) (m : Mem) (ts : List CoreTy) :
     simp only [zeros, List.map_cons] at ih ⊢
     simp [eval, ih]
 
+/-- every cast of the list is applied to an operand of the core type it converts from -/
+def CastsTyped (p : Nat) : List Bitcast → List CVal → Prop
+  | c :: cs, v :: vs => castTyped p c v = some (castSem p c v) ∧ CastsTyped p cs vs
+  | _, _ => True
+
+theorem CastsTyped.take {p : Nat} : ∀ {casts : List Bitcast} {vs : List CVal} (n : Nat),
+    CastsTyped p casts vs → CastsTyped p (casts.take n) (vs.take n)
+  | [], _, n, _ => by simp [CastsTyped]
+  | _ :: _, [], n, _ => by cases n <;> simp [CastsTyped]
+  | c :: cs, v :: vs, 0, _ => by simp [CastsTyped]
+  | c :: cs, v :: vs, n + 1, h => by
+      simp only [List.take_succ_cons, CastsTyped]
+      exact ⟨h.1, CastsTyped.take n h.2⟩
+
+/-- the casts `castsFor` chooses are well-typed on operands of the source slot types -/
+theorem castsFor_typed (p : Nat) (hp : p = 4 ∨ p = 8) : ∀ (src dst : List CoreTy) (casts : List Bitcast)
+    (vs : List CVal), castsFor src dst = .ok casts → vs.map (·.ty) = src.map (CoreTy.erase p) →
+    CastsTyped p casts vs := by
+  intro src
+  induction src with
+  | nil => intro dst casts vs h _; simp [castsFor] at h; subst h; simp [CastsTyped]
+  | cons a src ih =>
+    intro dst casts vs h hty
+    cases dst with
+    | nil => simp [castsFor] at h; subst h; simp [CastsTyped]
+    | cons b dst =>
+      simp only [castsFor] at h
+      split at h <;> simp at h
+      rename_i c cs hcast hcs
+      subst h
+      cases vs with
+      | nil => simp at hty
+      | cons v vs =>
+        simp at hty
+        exact ⟨cast_typed p hp a b c hcast v hty.1, ih dst cs vs hcs hty.2⟩
+
 theorem evalList_casts (env : Env) (m : Mem) : ∀ (casts : List Bitcast) (xs : List Expr) (vs : List CVal),
-    casts.length = xs.length → evalList env m xs = some (vs.map MV.c) →
+    casts.length = xs.length → evalList env m xs = some (vs.map MV.c) → CastsTyped env.p casts vs →
     evalList env m (List.zipWith Expr.cast casts xs) = some ((List.zipWith (castSem env.p) casts vs).map MV.c) := by
   intro casts
   induction casts with
-  | nil => intro xs vs h _; cases xs <;> simp at h ⊢
+  | nil => intro xs vs h _ _; cases xs <;> simp at h ⊢
   | cons c casts ih =>
-    intro xs vs hlen hx
+    intro xs vs hlen hx hty
     cases xs with
     | nil => simp at hlen
     | cons x xs =>
@@ -59,8 +95,8 @@ theorem evalList_casts (env : Env) (m : Mem) : ∀ (casts : List Bitcast) (xs : 
           | cons v vs =>
             simp at hx
             obtain ⟨rfl, rfl⟩ := hx
-            have := ih xs vs (by simpa using hlen) hes
-            simp [eval, hex, MV.core?, this]
+            have := ih xs vs (by simpa using hlen) hes hty.2
+            simp [eval, hex, MV.core?, this, hty.1]
 
 theorem castSem_none (p : Nat) (x : CVal) : castSem p .none x = x := rfl
 
@@ -79,11 +115,12 @@ theorem zipWith_castSem_all_none (p : Nat) : ∀ (casts : List Bitcast) (vs : Li
       simp [hany.1, castSem_none, ih vs (by simpa using hany.2) (by simpa using hlen)]
 
 theorem evalList_applyCasts (env : Env) (m : Mem) (casts : List Bitcast) (xs : List Expr) (vs : List CVal)
-    (hlen : casts.length = xs.length) (hx : evalList env m xs = some (vs.map MV.c)) (hvl : vs.length = xs.length) :
+    (hlen : casts.length = xs.length) (hx : evalList env m xs = some (vs.map MV.c)) (hvl : vs.length = xs.length)
+    (hty : CastsTyped env.p casts vs) :
     evalList env m (applyCasts casts xs) = some ((List.zipWith (castSem env.p) casts vs).map MV.c) := by
   unfold applyCasts
   split
-  · exact evalList_casts env m casts xs vs hlen hx
+  · exact evalList_casts env m casts xs vs hlen hx hty
   · rename_i hany
     rw [zipWith_castSem_all_none env.p casts vs (by simpa using hany) (by omega)]
     exact hx
